@@ -6,7 +6,9 @@ import (
 	"errors"
 	"fmt"
 	"io"
+	"math"
 	"net/http/httptest"
+	"strconv"
 	"strings"
 	"testing"
 
@@ -28,6 +30,8 @@ var c07ContentTypes = []string{"exact", "-", "application/octet-stream", "exact;
 var c07Encodings = []string{"-", "gzip", "zstd", "", "identity"}
 var c07Accepts = []string{"-", "gzip", "zstd, gzip", "", ",,,", "identity"}
 var c07Timeouts = []string{"-", "1S", "100", "", "1", "S", "1x", "-1S", "999999999S", "12345678901", "1 S", "١S", "18446744073709551616n", "100000000H", "123456789012345678H", "100000000m", "99999999H"}
+
+var c07CLens = []string{"-", "exact", "max", "max-300"}
 
 type c07Body struct {
 	name string
@@ -82,6 +86,22 @@ func c07Bodies() []c07Body {
 		fl := fl
 		env = append(env, c07Body{fmt.Sprintf("flag-%02x", fl), "unjudged", func(p Proto, kind Kind, js bool) []byte { return refwire.Envelope(fl, c06ValidMsg(js)) }})
 	}
+	// envelopes whose flag byte carries protocol-specific bits and whose payload is larger than
+	// the handler's read limit (well-formed for the protocol that defines the flag)
+	env = append(env,
+		c07Body{"oversize-flag-02", "unjudged", func(p Proto, kind Kind, js bool) []byte {
+			return refwire.Envelope(2, []byte(`{"metadata":{"x-pad":["`+strings.Repeat("a", 3000)+`"]}}`))
+		}},
+		c07Body{"oversize-flag-80", "unjudged", func(p Proto, kind Kind, js bool) []byte {
+			return refwire.Envelope(0x80, []byte("x-pad: "+strings.Repeat("a", 3000)+"\r\n"))
+		}},
+		c07Body{"valid-then-oversize-flag-02", "unjudged", func(p Proto, kind Kind, js bool) []byte {
+			return append(refwire.Envelope(0, c06ValidMsg(js)), refwire.Envelope(2, []byte(`{"metadata":{"x-pad":["`+strings.Repeat("a", 3000)+`"]}}`))...)
+		}},
+		c07Body{"valid-then-oversize-flag-80", "unjudged", func(p Proto, kind Kind, js bool) []byte {
+			return append(refwire.Envelope(0, c06ValidMsg(js)), refwire.Envelope(0x80, []byte("x-pad: "+strings.Repeat("a", 3000)+"\r\n"))...)
+		}},
+	)
 	for _, e := range env {
 		e := e
 		out = append(out, c07Body{e.name, e.want, func(p Proto, kind Kind, js bool) []byte {
@@ -112,6 +132,8 @@ type c07Case struct {
 	Body    string `json:"body"`
 	Raw     []byte `json:"raw,omitempty"`
 	Dev     int    `json:"dev"`
+	// CLen: announced Content-Length: "" / "-" unknown (-1), "exact", "max" (2^63-1), "max-300"
+	CLen string `json:"clen,omitempty"`
 }
 
 func (k c07Case) key() string {
@@ -122,6 +144,9 @@ func (k c07Case) key() string {
 	body := k.Body
 	if body == "raw" {
 		body = fmt.Sprintf("raw:%x", k.Raw)
+	}
+	if k.CLen != "" && k.CLen != "-" {
+		body += "/clen=" + k.CLen
 	}
 	return fmt.Sprintf("%s/%s/%s/limit=%v/%s/HTTP%d.%d/ct=%s/enc=%s/acc=%s/to=%q/body=%s", k.Proto, k.Kind, codec, k.Limit, k.Method, k.Major, k.Minor, k.CT, k.Enc, k.Accept, k.Timeout, body)
 }
@@ -204,6 +229,18 @@ func c07Check(c *ev.Collector, k c07Case) {
 			name = "Connect-Timeout-Ms"
 		}
 		req.Header[name] = []string{k.Timeout}
+	}
+	req.ContentLength = -1
+	switch k.CLen {
+	case "exact":
+		req.ContentLength = int64(len(body))
+	case "max":
+		req.ContentLength = math.MaxInt64
+	case "max-300":
+		req.ContentLength = math.MaxInt64 - 300
+	}
+	if req.ContentLength >= 0 {
+		req.Header.Set("Content-Length", strconv.FormatInt(req.ContentLength, 10))
 	}
 	rec := httptest.NewRecorder()
 	g := Guarded(func() { h.ServeHTTP(rec, req) })
@@ -320,6 +357,11 @@ func c07Check(c *ev.Collector, k c07Case) {
 			if k.Limit && k.Body == "oversize" && code != "invalid_argument" && !expired {
 				viol("documented-code", "code="+code, "oversize message under a read limit answered with %s", code)
 			}
+			// an oversize envelope is oversize whatever its flag byte says; a multi-message
+			// receiver that reaches it must not report success
+			if k.Limit && strings.Contains(k.Body, "oversize-flag") && k.Kind.ClientStreams() && len(body) > 0 && code == "ok" && !expired {
+				viol("documented-code", "code=ok", "an envelope of %d bytes with protocol-specific flag bits under a read limit of 1024 was answered ok", len(body))
+			}
 		}
 		// user code only ever sees messages that decode from the request
 		if len(delivered) > 0 && (k.Body == "raw" || want != "ok") {
@@ -389,7 +431,7 @@ func TestC07(t *testing.T) {
 	}
 	c.Bound("max_simultaneous_deviations", maxDev)
 	c.Bound("raw_body_length", L)
-	sizes := []int{len(c07Methods), len(c07Versions), len(c07ContentTypes), len(c07Encodings), len(c07Accepts), len(c07Timeouts), len(c07BodyMenu), 2}
+	sizes := []int{len(c07Methods), len(c07Versions), len(c07ContentTypes), len(c07Encodings), len(c07Accepts), len(c07Timeouts), len(c07BodyMenu), 2, len(c07CLens)}
 	idx := 0
 	for _, p := range AllProtos {
 		for _, kind := range AllKinds {
@@ -416,7 +458,7 @@ func TestC07(t *testing.T) {
 						}
 					}
 					k := c07Case{Proto: p, Kind: kind, JSON: js, Limit: ch[7] == 1, Method: c07Methods[ch[0]], Major: c07Versions[ch[1]][0], Minor: c07Versions[ch[1]][1],
-						CT: c07ContentTypes[ch[2]], Enc: c07Encodings[ch[3]], Accept: c07Accepts[ch[4]], Timeout: c07Timeouts[ch[5]], Body: c07BodyMenu[ch[6]].name, Dev: ndev}
+						CT: c07ContentTypes[ch[2]], Enc: c07Encodings[ch[3]], Accept: c07Accepts[ch[4]], Timeout: c07Timeouts[ch[5]], Body: c07BodyMenu[ch[6]].name, Dev: ndev, CLen: c07CLens[ch[8]]}
 					c.Case(k.key(), ndev > 0)
 					Bubble(t, func() { c07Check(c, k) })
 					if idx%30011 == 0 {
